@@ -163,8 +163,9 @@ def sha256(path):
 
 
 # ----------------------------------------------------------------------------- raw HDF5: nodes, items, deletions
-FLAT = ("Data", "Groups", "Objects", "Types")
-TYPE_FLAT = ("Data types", "Group types", "Object types")
+FLAT = {"Data": "D", "Groups": "G", "Objects": "O"}
+TFLAT = {"Data types": "data", "Group types": "group", "Object types": "object"}
+KIND_OF_FLAT = {"Data": "data", "Groups": "group", "Objects": "object"}
 
 
 def _addr(obj):
@@ -174,102 +175,191 @@ def _addr(obj):
 
 
 def _s(x):
+    import numpy as np
+
     if isinstance(x, bytes):
         return x.decode("utf-8", "replace")
+    if isinstance(x, np.ndarray):
+        return "<array %s>" % (hashlib.sha256(repr(x.tolist()).encode()).hexdigest()[:8])
     return str(x)
 
 
+def _is_uid_name(name):
+    return len(name) == 38 and name[0] == "{" and name[-1] == "}"
+
+
+def mkey(name, ords=None):
+    """Model key (JSON form) of a link or attribute name."""
+    fixed = {"Groups": ["G"], "Objects": ["O"], "Data": ["D"], "Types": ["T"], "Data types": ["TF", "data"], "Group types": ["TF", "group"],
+             "Object types": ["TF", "object"], "Root": ["Root"], "Type": ["Type"], "PropertyGroups": ["PGs"],
+             "Concatenated Data": ["Concat"], "Color map": ["Cmap"], "Value map": ["Vmap"], "ID": ["ID"], "Name": ["Name"],
+             "Primitive type": ["Prim"]}
+    if name in fixed:
+        return fixed[name]
+    if ords is not None and name in ords:
+        return ["U", ords[name]]
+    return ["N", name]
+
+
 def scan(path):
-    """Return (nodes, items).  nodes: addr -> {"path": first path found (sorted DFS), "role": ..., "owner": uid or None,
-    "is_group": bool, "attrs": [names], "links": {name: addr}}.  items: list of dicts
-    {"t": "attr"|"link", "node": addr, "path": node path, "name": ..., "kind": <item kind string>, "owner": uid|None}."""
+    """Raw structure of the file.  Returns dict(top=..., nodes={addr: node}, items=[...], ords={entity link name: ordinal},
+    tords={type link name: ordinal}).  node = {cpath (model address or None), h5path, role, owner (entity link name or None),
+    is_group, attrs {name: str(value)}, links [(name, addr)] in h5py iteration order}.  Roles: workspace, flat:<K>, types,
+    typeflat:<K>, type:<K>, typedataset, entity:<K>, children:<K>, pgs, pg, dataset, concat, concatitem, other."""
     import h5py
 
     nodes = {}
     with h5py.File(path, "r") as f:
-        top = list(f)[0]
+        tops = list(f)
+        top = tops[0]
 
-        def visit(obj, pth, role, owner):
+        def reg(obj, cpath, h5path, role, owner):
             a = _addr(obj)
             if a in nodes:
-                return a
+                return a, False
             isg = isinstance(obj, h5py.Group)
-            nd = {"path": pth, "role": role, "owner": owner, "is_group": isg, "attrs": sorted(obj.attrs.keys()), "links": {}}
-            nodes[a] = nd
-            if isg:
-                for name in sorted(obj.keys()):
-                    child = obj[name]
-                    crole, cowner = child_role(role, owner, name, child)
-                    nd["links"][name] = visit(child, pth + "/" + name, crole, cowner)
-            return a
+            nodes[a] = {"cpath": cpath, "h5path": h5path, "role": role, "owner": owner, "is_group": isg,
+                        "attrs": {k: _s(v) for k, v in obj.attrs.items()},
+                        "links": [(n, _addr(obj[n])) for n in obj] if isg else []}
+            return a, True
 
-        def child_role(role, owner, name, child):
-            isg = isinstance(child, h5py.Group)
-            if role == "workspace":
-                if name in ("Data", "Groups", "Objects"):
-                    return "flat:" + name, None
-                if name == "Types":
-                    return "types", None
-                if name == "Root":
-                    return "entity:Groups", _uid_of(child)
-                return "other", None
-            if role.startswith("flat:"):
-                return "entity:" + role[5:], _uid_of(child) or name
-            if role == "types":
-                return "typeflat:" + name, None
-            if role.startswith("typeflat:"):
-                return "type:" + role[9:], _uid_of(child) or name
-            if role.startswith("entity:"):
-                if name == "Type":
-                    return "type:" + {"Data": "Data types", "Groups": "Group types", "Objects": "Object types"}[role[7:]], _uid_of(child)
-                if name in ("Data", "Groups", "Objects") and isg:
-                    return "children:" + name, owner
-                if name == "PropertyGroups":
-                    return "pgs", owner
-                if name == "Concatenated Data":
-                    return "concat", owner
-                return "dataset:" + name, owner
-            if role.startswith("children:"):
-                return "entity:" + role[9:], _uid_of(child) or name
-            if role == "pgs":
-                return "pg", owner
-            if role.startswith("type:"):
-                return "typedataset:" + name, owner
-            if role == "concat" or role.startswith("concat"):
-                return "concat:" + name if role == "concat" else "concatitem", owner
-            return "other", owner
+        root = f[top]
+        reg(root, [], "/" + top, "workspace", None)
+        # entity link names: ordinals in name order over everything that names an entity
+        names = set()
+        for fl in FLAT:
+            if fl in root and isinstance(root[fl], h5py.Group):
+                names.update(n for n in root[fl])
 
-        def _uid_of(child):
-            v = child.attrs.get("ID")
-            return _s(v) if v is not None else None
+        def collect(g, depth=0):
+            for c in ("Data", "Groups", "Objects"):
+                if c in g and isinstance(g[c], h5py.Group):
+                    for n in g[c]:
+                        names.add(n)
+                        if depth < 12 and isinstance(g[c][n], h5py.Group):
+                            collect(g[c][n], depth + 1)
 
-        visit(f[top], "/" + top, "workspace", None)
-    # flat-container registration first: re-root canonical paths of entities to the flat container when present
+        if "Root" in root:
+            collect(root["Root"])
+        ords = {n: i for i, n in enumerate(sorted(names))}
+        tords = {}
+        # phase 1: flat containers and their entries, type containers and types
+        for fl, code in FLAT.items():
+            if fl in root and isinstance(root[fl], h5py.Group):
+                reg(root[fl], [[code]], f"/{top}/{fl}", "flat:" + fl, None)
+                for n in root[fl]:
+                    reg(root[fl][n], [[code], ["U", ords[n]]], f"/{top}/{fl}/{n}", "entity:" + fl, n)
+        if "Types" in root and isinstance(root["Types"], h5py.Group):
+            reg(root["Types"], [["T"]], f"/{top}/Types", "types", None)
+            for tf, kind in TFLAT.items():
+                if tf in root["Types"]:
+                    g = root["Types"][tf]
+                    reg(g, [["T"], ["TF", kind]], f"/{top}/Types/{tf}", "typeflat:" + tf, None)
+                    tnames = sorted(g)
+                    for i, n in enumerate(tnames):
+                        tords[(kind, n)] = i
+                        reg(g[n], [["T"], ["TF", kind], ["U", i]], f"/{top}/Types/{tf}/{n}", "type:" + tf, n)
+        # phase 2: below the nodes
+        def below(obj, cpath, h5path, role, owner, depth=0):
+            if not isinstance(obj, h5py.Group) or depth > 14:
+                return
+            for n in obj:
+                child = obj[n]
+                cp = cpath + [mkey(n, ords)] if cpath is not None else None
+                hp = h5path + "/" + n
+                isg = isinstance(child, h5py.Group)
+                if role == "workspace":
+                    if n == "Root":
+                        a, new = reg(child, None, hp, "entity:Groups", child.attrs.get("ID") and _s(child.attrs.get("ID")))
+                        if new:  # the Root target is not in the flat container: not a library file shape
+                            below(child, None, hp, "entity:Groups", None, depth + 1)
+                        continue
+                    a, new = reg(child, None, hp, "other", None)
+                    if new:
+                        below(child, None, hp, "other", None, depth + 1)
+                    else:
+                        below(child, nodes[a]["cpath"], nodes[a]["h5path"], nodes[a]["role"], nodes[a]["owner"], depth + 1)
+                    continue
+                if role.startswith("flat:") or role == "types" or role.startswith("typeflat:"):
+                    a = _addr(child)
+                    nd = nodes[a]
+                    below(child, nd["cpath"], nd["h5path"], nd["role"], nd["owner"], depth + 1)
+                    continue
+                if role.startswith("entity:"):
+                    if n == "Type":
+                        a, new = reg(child, None, hp, "type:?", None)
+                        continue
+                    if n in FLAT and isg:
+                        a, new = reg(child, cp, hp, "children:" + n, owner)
+                        if new:
+                            for m in child:
+                                reg(child[m], None, hp + "/" + m, "entity:" + n, m)  # only if absent from the flat container
+                        continue
+                    if n == "PropertyGroups" and isg:
+                        a, new = reg(child, cp, hp, "pgs", owner)
+                        if new:
+                            for m in child:
+                                reg(child[m], cp + [["N", m]], hp + "/" + m, "pg", owner)
+                        continue
+                    if n == "Concatenated Data":
+                        a, new = reg(child, cp, hp, "concat", owner)
+                        if new:
+                            below(child, cp, hp, "concat", owner, depth + 1)
+                        continue
+                    a, new = reg(child, cp, hp, "dataset" if not isg else "other", owner)
+                    if new and isg:
+                        below(child, cp, hp, "other", owner, depth + 1)
+                    continue
+                if role.startswith("type:"):
+                    reg(child, cp, hp, "typedataset", owner)
+                    continue
+                if role in ("concat", "concatitem", "other"):
+                    a, new = reg(child, cp, hp, "concatitem" if role != "other" else "other", owner)
+                    if new:
+                        below(child, cp, hp, nodes[a]["role"], owner, depth + 1)
+                    continue
+
+        below(root, [], "/" + top, "workspace", None)
+        for a in list(nodes):
+            nd = nodes[a]
+            if nd["role"].startswith("entity:") and nd["is_group"]:
+                pass
+        # descend into every entity / type node (registered in phase 1 or as orphans)
+        done = set()
+        changed = True
+        while changed:
+            changed = False
+            for a in list(nodes):
+                nd = nodes[a]
+                if a in done or not (nd["role"].startswith("entity:") or nd["role"].startswith("type:")) or not nd["is_group"]:
+                    continue
+                done.add(a)
+                changed = True
+                below(f[nd["h5path"]], nd["cpath"], nd["h5path"], nd["role"], nd["owner"])
     items = []
-    for a, nd in sorted(nodes.items(), key=lambda kv: kv[1]["path"]):
-        for an in nd["attrs"]:
-            items.append({"t": "attr", "node": a, "path": nd["path"], "name": an, "owner": nd["owner"],
+    for a, nd in sorted(nodes.items(), key=lambda kv: kv[1]["h5path"]):
+        for an in sorted(nd["attrs"]):
+            items.append({"t": "attr", "node": a, "h5path": nd["h5path"], "name": an, "owner": nd["owner"], "role": nd["role"],
                           "kind": f"attr|{_role_class(nd['role'])}|{an}"})
-        for ln, ca in nd["links"].items():
-            cr = nodes[ca]["role"]
-            items.append({"t": "link", "node": a, "path": nd["path"], "name": ln, "owner": nd["owner"], "target_owner": nodes[ca]["owner"],
+        for ln, ca in nd["links"]:
+            cr = nodes[ca]["role"] if ca in nodes else "other"
+            items.append({"t": "link", "node": a, "h5path": nd["h5path"], "name": ln, "owner": nd["owner"], "role": nd["role"],
+                          "target": ca, "target_role": cr, "target_owner": nodes[ca]["owner"] if ca in nodes else None,
                           "kind": f"link|{_role_class(nd['role'])}|{_link_class(nd['role'], ln, cr)}"})
-    return nodes, items
+    return {"top": top, "nodes": nodes, "items": items, "ords": ords, "tords": tords}
 
 
 def _role_class(role):
-    return role
+    return role.replace("type:?", "type")
 
 
 def _link_class(prole, name, crole):
     """Name of a link, with uuid-named links abstracted to the role of their target."""
-    if crole.startswith("entity:") and name != "Root":
-        return "<" + crole + ">"
-    if crole.startswith("type:") and name != "Type":
+    if _is_uid_name(name):
         return "<" + crole + ">"
     if crole == "pg":
         return "<pg>"
-    if crole == "concatitem":
+    if crole == "concatitem" and prole != "concat":
         return "<concatitem>"
     return name
 
@@ -278,7 +368,7 @@ def delete_item(path, item):
     import h5py
 
     with h5py.File(path, "r+") as f:
-        node = f[item["path"]]
+        node = f[item["h5path"]]
         if item["t"] == "attr":
             del node.attrs[item["name"]]
         else:
@@ -416,3 +506,196 @@ def walk(path, mode="r"):
         except BaseException as e:  # noqa: BLE001
             res["close"] = {"exc": type(e).__name__}
     return res
+
+
+# ----------------------------------------------------------------------------- deterministic identifiers while building
+class seeded_uuids:
+    """uuid.uuid4 replaced by a counter-driven generator so that a family file has the same identifiers on every build."""
+
+    def __init__(self, seed):
+        self.seed = seed
+        self.n = 0
+
+    def __enter__(self):
+        import uuid
+
+        self._orig = uuid.uuid4
+
+        def gen():
+            self.n += 1
+            h = hashlib.sha256(f"c19-{self.seed}-{self.n}".encode()).digest()
+            return uuid.UUID(bytes=h[:16], version=4)
+
+        uuid.uuid4 = gen
+        return self
+
+    def __exit__(self, *a):
+        import uuid
+
+        uuid.uuid4 = self._orig
+
+
+def build_seeded(family, path, seed):
+    with seeded_uuids(seed):
+        return build(family, path)
+
+
+# ----------------------------------------------------------------------------- scan -> model file description (fspec)
+def _printable(s):
+    return all(32 <= ord(c) < 127 for c in s)
+
+
+def to_spec(sc):
+    """(spec, None) or (None, reason) when the file is outside the model (concatenated groups, orphans, foreign nodes)."""
+    nodes, ords, tords = sc["nodes"], sc["ords"], sc["tords"]
+    by_cpath = {json_key(nd["cpath"]): a for a, nd in nodes.items() if nd["cpath"] is not None}
+    top = by_cpath.get("[]")
+    tn = nodes[top]
+    tl = dict(tn["links"])
+    for must in ("Data", "Groups", "Objects", "Types", "Root"):
+        if must not in tl:
+            return None, f"no {must} link"
+    if set(tl) - {"Data", "Groups", "Objects", "Types", "Root"}:
+        return None, "foreign link under the workspace group"
+    for a, nd in nodes.items():
+        if nd["cpath"] is None or nd["role"] in ("other", "concat", "concatitem", "type:?"):
+            return None, f"node outside the model: {nd['role']} at {nd['h5path']}"
+        for k in list(nd["attrs"]) + [n for n, _ in nd["links"]]:
+            if not _printable(k):
+                return None, "non-ascii name"
+    tok = [0]
+
+    def newtok():
+        tok[0] += 1
+        return tok[0]
+
+    def aval(name, v, owner_name=None):
+        if name == "ID" and owner_name is not None and v == owner_name and owner_name in ords:
+            return ["Uid", ords[owner_name]]
+        if name == "ID":
+            return ["Str", v.lower()]
+        return ["Tok", int(hashlib.sha256(v.encode()).hexdigest()[:4], 16)]
+
+    def amap(nd, owner_name=None):
+        return [[mkey(k), aval(k, v, owner_name)] for k, v in nd["attrs"].items()]
+
+    # types
+    types = {"data": [], "group": [], "object": []}
+    type_at = {}
+    for (kind, name), i in sorted(tords.items(), key=lambda kv: (kv[0][0], kv[1])):
+        a = by_cpath[json_key([["T"], ["TF", kind], ["U", i]])]
+        nd = nodes[a]
+        cm = vm = None
+        for ln, la in nd["links"]:
+            if ln == "Color map" and not nodes[la]["is_group"]:
+                cm = [amap(nodes[la]), newtok()]
+            elif ln == "Value map" and not nodes[la]["is_group"]:
+                vm = newtok()
+            else:
+                return None, f"foreign link {ln} under a type"
+        types[kind].append([i, {"attrs": amap(nd), "cmap": cm, "vmap": vm}])
+        type_at[a] = (kind, i)
+    seen = set()
+
+    def ent(a, kind):
+        nd = nodes[a]
+        if a in seen:
+            raise ValueError("entity reachable twice")
+        seen.add(a)
+        name = nd["owner"]
+        if nd["role"] != "entity:" + {"group": "Groups", "object": "Objects", "data": "Data"}[kind]:
+            raise ValueError("entity listed under a container of another kind")
+        ty, dsets, pgs, conts, kids = None, [], None, [], []
+        for ln, la in nd["links"]:
+            ch = nodes[la]
+            if ln == "Type":
+                if la not in type_at or type_at[la][0] != kind:
+                    raise ValueError("Type link does not point into the matching type container")
+                ty = type_at[la][1]
+            elif ln == "PropertyGroups" and ch["role"] == "pgs":
+                if kind != "object":
+                    raise ValueError("property groups outside an object")
+                pgs = [[["N", pn], amap(nodes[pa])] for pn, pa in ch["links"]]
+            elif ln in FLAT and ch["role"] == "children:" + ln:
+                ck = KIND_OF_FLAT[ln]
+                conts.append(ck)
+                for cn, ca in ch["links"]:
+                    if nodes[ca]["cpath"] != [[FLAT[ln]], ["U", ords[cn]]]:
+                        raise ValueError("child entry is not the flat container's node")
+                    kids.append(ent(ca, ck))
+            elif ch["role"] == "dataset":
+                dsets.append([mkey(ln), newtok()])
+            else:
+                raise ValueError(f"foreign link {ln} under an entity")
+        if ty is None:
+            raise ValueError("entity without Type link")
+        if kind == "data" and (conts or kids):
+            raise ValueError("data with children")
+        kids.sort(key=lambda t: t["u"])
+        return {"u": ords[name], "k": kind, "attrs": amap(nd, name), "ty": ty, "dsets": dsets, "pgs": pgs, "conts": conts, "kids": kids}
+
+    ra = tl["Root"]
+    if nodes[ra]["role"] != "entity:Groups" or nodes[ra]["cpath"] is None:
+        return None, "Root target is not in the flat container"
+    try:
+        root = ent(ra, "group")
+    except (ValueError, KeyError) as e:
+        return None, str(e)
+    n_ent = sum(1 for nd in nodes.values() if nd["role"].startswith("entity:"))
+    if n_ent != len(seen):
+        return None, "entities in a flat container that are not reachable from the root"
+    return {"proj": amap(tn), "types": types, "root": root}, None
+
+
+def json_key(x):
+    import json
+
+    return json.dumps(x)
+
+
+def model_item(sc, it):
+    """The item in model coordinates: {"t": "attr"|"link", "a": address, "k": key} or None."""
+    nd = sc["nodes"][it["node"]]
+    if nd["cpath"] is None:
+        return None
+    if it["t"] == "attr":
+        k = mkey(it["name"])
+    elif nd["role"].startswith("typeflat:"):
+        kind = TFLAT[nd["role"][9:]]
+        k = ["U", sc["tords"][(kind, it["name"])]]
+    elif nd["role"] == "pgs":
+        k = ["N", it["name"]]
+    else:
+        k = mkey(it["name"], sc["ords"])
+    return {"t": it["t"], "a": nd["cpath"], "k": k}
+
+
+def scan_nodes_for_model(sc):
+    """[(address, attrs, is_dataset, links)] of every scanned node, in model coordinates (for the layout check)."""
+    out = []
+    nodes = sc["nodes"]
+    for a, nd in nodes.items():
+        if nd["cpath"] is None:
+            return None
+        owner = nd["owner"] if nd["role"].startswith("entity:") else None
+        attrs = []
+        for k, v in nd["attrs"].items():
+            if k == "ID" and owner is not None and v == owner and owner in sc["ords"]:
+                attrs.append([mkey(k), ["Uid", sc["ords"][owner]]])
+            elif k == "ID":
+                attrs.append([mkey(k), ["Str", v.lower()]])
+            else:
+                attrs.append([mkey(k), ["Tok", int(hashlib.sha256(v.encode()).hexdigest()[:4], 16)]])
+        links = []
+        for ln, la in nd["links"]:
+            if nodes[la]["cpath"] is None:
+                return None
+            if nd["role"].startswith("typeflat:"):
+                k = ["U", sc["tords"][(TFLAT[nd["role"][9:]], ln)]]
+            elif nd["role"] == "pgs":
+                k = ["N", ln]
+            else:
+                k = mkey(ln, sc["ords"])
+            links.append([k, nodes[la]["cpath"]])
+        out.append([nd["cpath"], attrs, not nd["is_group"], links])
+    return out
